@@ -102,7 +102,9 @@ def refute_by_grounding(o, axioms, sorts, sizes=(2, 3), budget=8.0):
 
 
 def discharge(obls, axioms, timeout_ms=10000, canary_ms=1500, ground_sorts=(), second=True, reseed=True):
+    world_axioms = axioms
     for o in obls:
+        axioms = [] if getattr(o, 'isolated', False) else world_axioms
         s = Solver(); s.set(timeout=canary_ms if o.canary else timeout_ms)
         s.add(axioms); s.add(o.hyps); s.add(Not(o.goal))
         t = time.time(); r = s.check(); o.secs = time.time() - t; o.backend = 'z3-' + get_version_string()
